@@ -27,11 +27,13 @@ open Nebula.Wire Nebula.Machine Nebula.Spec.Handshake
 
 /-- Whenever any call in any history returns a Result, the reported certificate was accepted by the
 trust check in a step of that history whose noise read succeeded and whose recombined certificate
-carried exactly the `PeerStatic()` of that read. -/
+carried exactly the `PeerStatic()` of that read — and the public key of the reported certificate
+(`Result.RemoteCert.Certificate.PublicKey()`) *is* that `PeerStatic()`. -/
 theorem complete_implies_verified_partial (c : Cfg) (s0 : St) (h0 : s0.remoteCertSet = false)
     (evs : List Ev) (e : Ev) (s' : St) (sent : Option Sent) (r : Result)
     (h : stepEv c (runState c s0 evs) e = (s', .ok sent (some r))) :
-    ∃ cert, r.remoteCert = some cert ∧ ∃ e' ∈ evs ++ [e], e'.accepts cert = true := by
+    ∃ cert, r.remoteCert = some cert ∧
+      ∃ e' ∈ evs ++ [e], e'.accepts cert = true ∧ e'.peerStatic = some r.remoteKey := by
   have hinv0 : CertInv s0 [] := by intro hs; rw [h0] at hs; simp at hs
   have hinv := certInv_step c _ _ e (certInv_run c evs s0 [] hinv0)
   rw [h] at hinv
@@ -45,9 +47,10 @@ theorem complete_implies_verified_partial (c : Cfg) (s0 : St) (h0 : s0.remoteCer
   | pkt len st rd co now wr =>
     simp only [stepEv, processPacket] at h
     obtain ⟨hc, _, _, hr, _⟩ := pp_result true c _ s' len st rd co now wr sent r h
-    obtain ⟨cert, h1, h2⟩ := hinv hc
-    refine ⟨cert, ?_, by simpa using h2⟩
-    rw [hr]; simpa [completed] using h1
+    obtain ⟨cert, h1, e', h2, h3, h4⟩ := hinv hc
+    refine ⟨cert, ?_, e', by simpa using h2, h3, ?_⟩
+    · rw [hr]; simpa [completed] using h1
+    · rw [hr]; simpa [completed] using h4
 
 /-- `accepts` unfolded: what the accepting step looked like. -/
 theorem accepts_means (rd : ReadOut) (co : CertOut) (cert : CertId) (h : accepts rd co cert = true) :
@@ -96,8 +99,19 @@ example :
     (processPacket c { myVersion := 2 } 100 0 (.ok msg false false [7, 7]) ⟨some ([7, 7], 2), some "peer"⟩ 11
       (.ok true true)).2 =
       .ok (some ⟨9, 7, 11, true, 2, 9, 2⟩)
-        (some { eKey := .cs2, dKey := .cs1, remoteCert := some "peer", remoteIndex := 9, localIndex := 7,
+        (some { eKey := .cs2, dKey := .cs1, remoteCert := some "peer", remoteKey := [7, 7], remoteIndex := 9, localIndex := 7,
                 handshakeTime := 5, messageIndex := 2, initiator := false }) := by
+  decide
+
+-- a certificate whose own key is not the noise static key (any encoding the decoder lets through)
+-- does not complete
+example :
+    let c : Cfg := { initiator := false, subtype := 0, msgs := ixMsgs, haveCred := fun v => v == 2,
+                     credVersion := id, alloc := some 7 }
+    let msg := Payload.marshalPayload [] { cert := [1, 2, 3], initiatorIndex := 9, time := 5, certVersion := 0 }
+    (processPacket c { myVersion := 2 } 100 0 (.ok msg false false [7, 7]) ⟨some ([6, 6], 1), some "victim"⟩ 11
+      (.ok true true)) = (fail { myVersion := 2, msgIdx := 1, payloadSet := true, remoteIndex := 9, handshakeTime := 5 },
+        .err .publicKeyMismatch) := by
   decide
 
 -- a stolen certificate (trust check refuses the recombined certificate) does not complete
